@@ -245,6 +245,46 @@ func (c *Ctx) cipherContinuity() {
 			c.check(okv, R, fnName(f)+" parses with the connection's decipher", cl.Pos(), "ParsePacket(_, econn.decipher)", fnName(f)+" calls ParsePacket with a cipher stream that is not the connection's persistent decipher: the CTR state would not carry across packets")
 		}
 	}
+	// one reader over the socket: a buffering reader may read ahead, so a temporary one loses
+	// bytes (and the stream-cipher position) for whoever reads next. The only buffering reader is
+	// created once, outside the receive loop, and serves every ParsePacket of that loop; any other
+	// ParsePacket reads the socket itself.
+	nBuf := 0
+	for _, f := range c.moduleFuncs("liteclient") {
+		for _, q := range []string{"bufio.NewReader", "bufio.NewReaderSize"} {
+			for _, br := range callsTo(f, q) {
+				if !derivesFrom(br.Call.Args[0], fieldLoadNamed("conn"), false) {
+					continue
+				}
+				nBuf++
+				persistent := !inLoop(br.Block())
+				usedInLoop := false
+				for _, cl := range callsTo(f, modPath+"/liteclient.ParsePacket") {
+					if derivesFrom(cl.Call.Args[0], func(v ssa.Value) bool { return v == ssa.Value(br) }, false) && inLoop(cl.Block()) {
+						usedInLoop = true
+					}
+				}
+				c.check(persistent && usedInLoop, R, fnName(f)+": the buffering socket reader lives as long as the receive loop", br.Pos(), "created before the loop, used by every ParsePacket in it", fnName(f)+" wraps the socket in a buffering reader that is not the receive loop's persistent reader: bytes it reads ahead (a frame that arrived in the same TCP segment) are lost to the next reader and the stream cipher falls out of step")
+			}
+		}
+		for _, cl := range callsTo(f, modPath+"/liteclient.ParsePacket") {
+			if inLoop(cl.Block()) {
+				continue
+			}
+			direct := false
+			if mi, ok := cl.Call.Args[0].(*ssa.MakeInterface); ok {
+				_, n, ok := fieldOfLoad(mi.X)
+				direct = ok && n == "conn"
+			} else if ci, ok := cl.Call.Args[0].(*ssa.ChangeInterface); ok {
+				_, n, ok := fieldOfLoad(ci.X)
+				direct = ok && n == "conn"
+			} else if _, n, ok := fieldOfLoad(cl.Call.Args[0]); ok && n == "conn" {
+				direct = true
+			}
+			c.check(direct, R, fnName(f)+": a one-off ParsePacket reads the socket itself", cl.Pos(), "ParsePacket(econn.conn, …)", fnName(f)+" parses a single packet through something other than the socket itself (a temporary buffering reader would swallow the bytes that follow the packet)")
+		}
+	}
+	c.check(nBuf == 1, R, "exactly one buffering reader over the socket", 0, "handleIncomingPackets' reader", fmt.Sprintf("%d buffering readers are created over the connection's socket; one (the receive loop's) is the confirmed number", nBuf))
 	if f := c.mustFn(R, "liteclient", "encryptedConn.send"); f != nil {
 		okv := false
 		var xor, wr *ssa.Call
@@ -261,7 +301,7 @@ func (c *Ctx) cipherContinuity() {
 		okv = xor != nil && wr != nil && before(xor, wr)
 		c.check(okv, R, "send encrypts the whole buffer with the persistent cipher and writes it", f.Pos(), "cipher.XORKeyStream(b, b) then conn.Write(b)", "encryptedConn.send no longer encrypts exactly the buffer it writes with the connection's persistent cipher")
 	}
-	c.floor(R, 6)
+	c.floor(R, 9)
 }
 
 // sendUnderLock: encryptedConn.send is serialised by Connection.mu (shared with C12).
